@@ -231,3 +231,35 @@ func sortedKeys(m map[string]bool) []string {
 	sort.Strings(out)
 	return out
 }
+
+// TranslateSet runs goose once on several packages of the scratch module and returns the emitted
+// file of each (by package name), plus exit status and stderr.
+func (d *Driver) TranslateSet(names []string, flags ...string) (map[string]string, int, string) {
+	out := filepath.Join(d.Work, "out-set")
+	os.RemoveAll(out)
+	args := append(append([]string{}, flags...), "-out", out)
+	for _, n := range names {
+		args = append(args, "./"+n)
+	}
+	cmd := exec.Command(d.GooseBin, args...)
+	cmd.Dir = d.ModDir()
+	cmd.Env = d.env
+	var stderr strings.Builder
+	cmd.Stderr = &stderr
+	cmd.Stdout = &stderr
+	err := cmd.Run()
+	code := 0
+	if ee, ok := err.(*exec.ExitError); ok {
+		code = ee.ExitCode()
+	} else if err != nil {
+		code = 2
+	}
+	res := map[string]string{}
+	for _, n := range names {
+		if b, err := os.ReadFile(filepath.Join(out, "example_com", "tvmod", n+".v")); err == nil {
+			res[n] = string(b)
+		}
+	}
+	os.RemoveAll(out)
+	return res, code, stderr.String()
+}
